@@ -31,6 +31,12 @@ SEEDS = [
     'defset list<A> S = { def q; } defm m : M<1>; assert !lt(1, 2), "m"; dump "x";',
     '#ifdef X\nclass A;\n#else\nclass B;\n#endif\n/* c */ // l\nclass D { bits<4> b = {1, 0, ?, 1}; list<int> l = v[1...2, 3]; int f = r.f{1-2}; }',
     'defvar c = !cond(!lt(x, 0): "n", true: "p"); defvar l = !foreach(i, [1], !add(i, 1));',
+    # constructs the coverage study found unvisited: operator lists, defvar in a multiclass, juxtaposed integers in slices and ranges,
+    # a named dag argument without value, `field`, directives at the end of the text
+    'defvar a = !dag(1,2,3) # !getdagarg<int>(d, 0) # !tolower("X");\n#ifndef 1',
+    'multiclass M { defvar v = 1; def a { int x = l[1 2]; } }',
+    'class A { field int x; let x{1-0} = 1; int y = l[1...2]; int z = l[1 2]; dag d = (op a:); }',
+    '#define X\n#ifdef X\nclass A : B, C<1>;\ndef d { code c = [{ x }]; }',
 ]
 
 
